@@ -49,7 +49,11 @@ package ignore
 //@   ensures found ==> (exists d int :: 0 <= d && d < len(file.Decls) && ((file.Decls[d].End() <= comment.Pos() && fset.Position(file.Decls[d].End()).Line == fset.Position(comment.Pos()).Line) || (exists n ast.Node :: n != nil && inspIn(n, file.Decls[d]) && n.Pos() < comment.Pos() && fset.Position(n.End()).Line == fset.Position(comment.Pos()).Line)))
 // a comment that directly follows a top-level declaration on that declaration's last line is inline (partial completeness)
 //@   ensures fset.File(comment.Pos()) != nil && (exists d int :: 0 <= d && d < len(file.Decls) && file.Decls[d].End() <= comment.Pos() && fset.Position(file.Decls[d].End()).Line == fset.Position(comment.Pos()).Line && (d + 1 >= len(file.Decls) || comment.Pos() < file.Decls[d+1].Pos())) ==> found
+// ... and so is a comment inside a declaration when some node of that declaration starts before it and ends on its line
+//@   ensures forall d int, n ast.Node :: fset.File(comment.Pos()) != nil && 0 <= d && d < len(file.Decls) && file.Decls[d].Pos() <= comment.Pos() && comment.Pos() < file.Decls[d].End() && n != nil && inspIn(n, file.Decls[d]) && n.Pos() < comment.Pos() && fset.Position(n.End()).Line == fset.Position(comment.Pos()).Line ==> found
 //@   assigns nothing
+//@   at call ast.Inspect#1 prunes $node.Pos() >= commentPos || fset.Position($node.End()).Line == commentLine
+//@   at call ast.Inspect#1 invariant !hasCodeOnLine ==> (forall k int :: 0 <= k && k < $i && $seq[k] != nil && $seq[k].Pos() < commentPos ==> fset.Position($seq[k].End()).Line != commentLine)
 //@   at call ast.Inspect#1 invariant hasCodeOnLine ==> (exists n ast.Node :: n != nil && inspIn(n, decl) && n.Pos() < commentPos && fset.Position(n.End()).Line == commentLine)
 
 // Pre-filters never hide a match (ASSUMED here; the first is discharged as language inclusion by the check of C15,
